@@ -9,6 +9,25 @@ CHECKS = {
  "C20": ("exploration", "runtime monitor: reference-model comparison of real encoders on generated inputs",
          "Real y.KeyWithTs/ParseKey/ParseTs/CompareKeys/SameKey, header, ValueStruct and valuePointer code run on ~0.5M (quick) generated hostile inputs and compared with independent reference implementations; sampled, not exhaustive.",
          "Trusts the 20-line reference comparator and the PRNG-driven generator; universal quantifier over byte strings is sampled.", "4/C20"),
+
+ "C21": ("exploration", "runtime monitor: real MergeIterator vs reference merge on generated inputs",
+         "table.NewMergeIterator over 1-9 generated sorted inputs compared step by step (Rewind/Next/Seek/random walks, both directions) with a reference sorted union with earliest-input precedence.",
+         "Inputs obey the iterator precondition (sorted, duplicate-free per input); zero inputs not exercised; sampled.", "4/C21"),
+ "C18": ("exploration", "runtime monitor: real SSTable build/open/iterate vs input slice, checkptr via -race not used here",
+         "Real table.Builder/CreateTable/OpenInMemoryTable/Iterator/ConcatIterator run on generated entry sequences under sampled option combinations (block size, compression, AES, bloom, checksum mode, file/in-memory); every traversal, seek and metadata accessor is compared with the input.",
+         "Option and entry space sampled; tables up to a few MB; 64-65KB keys included.", "4/C18"),
+ "C19": ("exploration", "runtime monitor: bloom filter no-false-negative invariant on generated and adversarial hash sets",
+         "y.NewFilter/MayContain and Table.DoesNotHave checked for every added key over random and adversarial hash sets and a false-positive ladder 1e-9..0.999.",
+         "Hash space sampled, not all 2^32 hashes.", "4/C19"),
+ "C22": ("exploration", "race detector + porcupine linearizability of recorded Put/Get histories + iterator invariants",
+         "Real skl.Skiplist under sequential random Put sequences (vs sorted map) and under 6-12-way concurrent Put/Get/scan with unique tokens; histories checked per key with porcupine, scans checked for order/duplicates/torn values/missing completed puts; built with -race, reports inside skl are violations.",
+         "Only interleavings the Go scheduler produced; many short histories.", "4/C22"),
+ "C16": ("exploration", "runtime monitor: real log-file writer/replayer vs independent record model, byte-flip fault injection",
+         "Real logFile.writeEntry/iterate/read/decodeEntry (through verif_export) on generated record sequences, plain and encrypted; delivered entries, value pointers and end offsets compared with an independent encoder; single-byte flips in key/value/crc regions must remove the record's group and everything after it.",
+         "Flip positions sampled for large records; three records per file.", "4/C16"),
+ "C17": ("exploration", "runtime monitor: real MANIFEST append/rewrite/replay vs reference map, truncation sweep and byte-flip injection",
+         "Real manifestFile.addChanges (rewrite threshold 5-50) and ReplayManifestFile on random change-set sequences; in-memory map, reference map and replay must agree after every set; every truncation offset since the last rewrite must replay to the last complete set; payload/crc flips must error.",
+         "Duplicate CREATE (caller bug) not generated; length-field flips excluded (indistinguishable from torn tail).", "4/C17"),
 }
 
 def hooks_commits():
